@@ -23,6 +23,10 @@ func main() {
 	switch os.Args[1] {
 	case "vc":
 		cmdVC(os.Args[2:])
+	case "check":
+		cmdCheck(os.Args[2:])
+	case "replay":
+		cmdReplay(os.Args[2:])
 	default:
 		fmt.Fprintln(os.Stderr, "unknown command", os.Args[1])
 		os.Exit(2)
